@@ -375,6 +375,14 @@ class Geometry(object):
 
         surf = self.detector.surface(dparam)  # shape (d, ndim)
 
+        # Parameters of different rank: pad the one of lower rank with
+        # leading axes (NumPy broadcasting rule)
+        extra = (surf.ndim - 1) - (matrix.ndim - 2)
+        if extra > 0:
+            matrix = matrix[(None,) * extra]
+        elif extra < 0:
+            surf = surf[(None,) * (-extra)]
+
         # Perform matrix-vector multiplication along the last axis of both
         # `matrix` and `surf` while "zipping" all axes that do not
         # participate in the matrix-vector product. In other words, the axes
